@@ -2,12 +2,13 @@
 import json, os, queue, re, subprocess, sys, time, threading
 from concurrent.futures import ThreadPoolExecutor
 import vp, build
+import modelconf
 
 PROP = "C02"
 Y_MERGE, Y_KERNEL, Y_SPLIT, Y_DM = 1, 2, 4, 8
 
 # input indices of harness/sched_inputs.h
-TREES = [0, 1, 2, 3, 4, 5, 6]
+TREES = [0, 1, 2, 3, 4, 5, 6, 15]
 DPS = [7, 8, 9, 10]
 KMS = [11, 12, 13]
 
@@ -137,6 +138,16 @@ def run(tier):
         return vp.finish(PROP, tier, t0, [], [], [], [], {"states": 1, "transitions": 1, "traces_validated_against_impl": 0,
                                                           "samples": ["reference run failed"], "exhaustive": False}, [],
                          ) if False else finish_err(tier, t0, errors)
+    # 1b. the scheduler against the Promela model (models/omp_tasks.pml): schedule counts and merge orders must agree
+    conf, conf_err = modelconf.run(refs, threads=(1, 2) if tier == "quick" else (1, 2, 3), env=c02env())
+    for ce in conf_err:
+        if "explorer reported a failure" in ce:
+            failures.append({"sig": "sem:failure-in-conformance-run", "text": ce, "rec": None})
+        else:
+            errors.append("model conformance: " + ce)
+    for rec in conf:
+        if not rec["agree"] and not conf_err:
+            errors.append("model conformance: Promela model and implementation disagree: %s" % rec)
     # 2. exploration
     jobs = jobs_for(tier)
     exes = {}
@@ -332,6 +343,8 @@ def run(tier):
         "jobs": per_job, "canonical_runs_N1_to_64": canon_runs, "tsan_free_running_runs": tsan_runs,
         "libgomp_sample_runs_not_deciding": gomp_runs, "scheduler_selftest_ok": selftest_ok,
         "scheduler_selftest_schedules": selftest_execs,
+        "promela_model_conformance": conf,
+        "model_traces_counted_against_impl": sum(r["model_paths"] for r in conf if r["agree"]),
         "reductions": ["idle implicit tasks of a team whose single is claimed run only when nothing else is enabled",
                        "merge/kernel events are scheduling points only while another deferred task is runnable"],
     }
